@@ -217,7 +217,9 @@ fn c09_invariant(ctx: &Ctx, world: &mut World, es: &ExpState) -> u64 {
 
 pub fn run_c09(ctx: &Ctx) -> i32 {
     RICH_AMOUNT.store(0, std::sync::atomic::Ordering::Relaxed);
-    let homes = |k: Kind| matches!(k, Kind::Outcome | Kind::State | Kind::StateOnErr | Kind::StateMissing | Kind::Panic);
+    // (EntryPresence: the only contract calls of this alphabet are calls with attached funds; whether
+    // the callee runs is decided by whether the transfer of those funds is accepted)
+    let homes = |k: Kind| matches!(k, Kind::Outcome | Kind::State | Kind::StateOnErr | Kind::StateMissing | Kind::EntryPresence | Kind::Panic);
     let mut st = TreeStats::default();
     let (start, ad, third) = with_world(false, |world| {
         let ad = Addrs::of(world);
@@ -280,6 +282,14 @@ pub fn run_c09(ctx: &Ctx) -> i32 {
         });
         mint_amounts.push(None);
         alphabet.push(Program { entry: Entry::Execute { sender: ad.rich.clone(), contract: ad.a.clone(), funds: l.clone() }, root: 0, nodes: vec![Node::default()] });
+        mint_amounts.push(None);
+        // funds attached to a call the contract makes to ITSELF (a transfer like any other: it must
+        // be covered and carry a positive amount, and it changes no balance)
+        alphabet.push(Program {
+            entry: Entry::Execute { sender: ad.poor.clone(), contract: ad.a.clone(), funds: vec![] },
+            root: 0,
+            nodes: vec![Node { subs: vec![Sub { id: 100, payload: vec![], reply_on: Mode::Never, msg: Msg::Call { target: Target::SelfC, funds: l.clone(), node: 1 }, reply: None }], ..Default::default() }, Node::default()],
+        });
         mint_amounts.push(None);
     }
     let _ = denoms;
